@@ -214,6 +214,13 @@ def infra_events(ctx, traces, save_hang_ok=False):
     msg = None
     for t in traces:
         for i, e in enumerate(t):
+            # a panic recovered inside the driver process counts against the code only if the stack
+            # attributes it to the code under test (harness code runs under the same recover())
+            if e["ev"] == "panic" and not e.get("incode", False) and not t[0].get("crash"):
+                msg = msg or ("a panic recovered by the driver was not raised in the code under test (scenario %s: %s at %s)"
+                              % (t[0].get("scn"), str(e.get("what"))[:200], e.get("at")))
+                del t[i:]
+                break
             if e["ev"] == "snap" and any(x[0] and x[0][-1] == "!toodeep" for x in e["ents"]):
                 msg = msg or "snapshot walker hit its depth guard (scenario %s)" % t[0].get("scn")
                 del t[i:]
